@@ -605,6 +605,16 @@ package main
 //@ func pbGetQueryDeserialize(in *pbx.GetQuery) (res *MsgGetQuery)
 //@   modifies inferred
 //@   ensures [C13] in != nil ==> res != nil
+// (a {get} received over gRPC means what the same {get} means as JSON: every option of every part is carried over)
+//@   ensures [C20] what_kept: in != nil ==> res.What == in.What
+//@   ensures [C20] sub_options_kept: in != nil && in.Sub != nil ==> res.Sub != nil && res.Sub.User == in.Sub.User && res.Sub.Topic == in.Sub.Topic && res.Sub.Limit == int(in.Sub.Limit)
+//@   ensures [C20] desc_options_kept: in != nil && in.Desc != nil ==> res.Desc != nil && res.Desc.User == in.Desc.User && res.Desc.Topic == in.Desc.Topic && res.Desc.Limit == int(in.Desc.Limit)
+//@   ensures [C20] data_options_kept: in != nil && in.Data != nil ==> res.Data != nil && res.Data.SinceId == int(in.Data.SinceId) && res.Data.BeforeId == int(in.Data.BeforeId) && res.Data.Limit == int(in.Data.Limit) && res.Data.User == in.Data.User && res.Data.Topic == in.Data.Topic
+// Milliseconds since the epoch to a point in time and back: exact.
+//@ func int64ToTime(ts int64) (res *time.Time)
+//@   modifies nothing
+//@   ensures [C20] absent_stays_absent: ts <= 0 ==> res == nil
+//@   ensures [C20] exact_milliseconds: ts > 0 ==> res != nil && timeToInt64(res) == ts
 // (frame trusted: the converter builds a fresh value and decodes JSON into fresh memory only)
 //@ func pbClientCredDeserialize(in *pbx.ClientCred) (res *MsgCredClient)
 //@   trusted
@@ -1126,3 +1136,14 @@ package main
 //@   loop 1
 //@     iterates [C17] decision_is_sticky: prev(rehash) ==> rehash
 //@     iterates [C17] failing_node_triggers_rehash: node != nil && !prev(rehash) && !rehash ==> node.failCount != c.fo.nodeFailCountLimit
+
+// C20: the credentials listed in a {meta} reply say the same over gRPC as in JSON: method, value and whether the
+// credential has been validated.
+//@ func pbServerCredsSerialize(in []*MsgCredServer) (out []*pbx.ServerCred)
+//@   requires [C20] forall k int :: 0 <= k && k < len(in) ==> in[k] != nil
+//@   modifies nothing
+//@   ensures [C20] same_length: len(out) == len(in)
+// (stated for the element written in each iteration; that earlier elements are not written again is not proved)
+//@   loop 1
+//@     invariant [C20] so_far: 0 <= #idx && #idx <= len(in) && len(out) == len(in)
+//@     iterates [C20] every_field_kept: out[prev(#idx)] != nil && out[prev(#idx)].Method == in[prev(#idx)].Method && out[prev(#idx)].Value == in[prev(#idx)].Value && out[prev(#idx)].Done == in[prev(#idx)].Done
